@@ -108,6 +108,11 @@ def correspondence(ctx):
         except ul.CaseInvalid:
             skipped += 1
             continue
+        if obs.get("exc") == "crash":
+            res.evaluations += 1
+            res.disagreements.append({"name": "the implementation raised {} where the model returns".format(obs["what"]),
+                                      "kind": "tree", "case": {"history": [], "tree": t, "frac": frac}})
+            continue
         if not obs["exact"]:
             res.count("skipped:inexact-float-exponent")
             continue
